@@ -13,6 +13,16 @@ import exprgen
 import session as S
 
 PID = "C04"
+L = {"p": "lit", "kids": []}
+# (configuration, tree): the recorded examples of the open findings
+def T(p, *k):
+    return {"p": p, "kids": list(k)}
+
+
+PINNED = [(("en", "ClearSpeak", "Medium"), T("sup", L, T("product", L, T("frac", L, T("sup", L, L))))),     # C04-is-repetitive-drops-prefix
+          (("en", "ClearSpeak", "Verbose"), T("sup", L, T("sum", L, T("frac", L, T("sqrt", L))))),
+          (("es", "SimpleSpeak", "Medium"), T("mixed", L, L, L)),                                          # C04-decimal-comma-mixed-number
+          (("vi", "ClearSpeak", "Medium"), T("underbrace", L, L))]                                         # C04-vi-under-over-script-not-spoken
 
 
 def run(tier):
@@ -46,20 +56,28 @@ def run(tier):
         cs = configs if per_tree >= len(configs) else random.Random(C.seed() * 101 + ti).sample(configs, per_tree)
         for c in cs:
             by_cfg[c].append(ti)
+    # the recorded example of every open finding is judged in every run (so a finding that stops reproducing is noticed)
+    for c, t in PINNED:
+        if c in by_cfg:
+            trees.append(t)
+            by_cfg[c].append(len(trees) - 1)
     scripts = []
     for c, tis in by_cfg.items():
         lang, style, verb = c
         for b in range(0, len(tis), 200):
             chunk = tis[b:b + 200]
             ops = [{"op": "set_rules_dir", "dir": "$RULES", "setup": True}, {"op": "set_pref", "name": "Language", "value": lang, "setup": True},
-                   {"op": "set_pref", "name": "SpeechStyle", "value": style, "setup": True}, {"op": "set_pref", "name": "Verbosity", "value": verb, "setup": True}]
-            meta = [None] * 4
+                   {"op": "set_pref", "name": "SpeechStyle", "value": style, "setup": True}, {"op": "set_pref", "name": "Verbosity", "value": verb, "setup": True},
+                   {"op": "events_on", "setup": True}]
+            meta = [None] * 5
             for ti in chunk:
                 xml, lits = exprgen.concretise(trees[ti], marks[lang])
                 ops.append({"op": "set_mathml", "mathml": xml})
                 meta.append(None)
                 ops.append({"op": "speech"})
                 meta.append((ti, lits, xml))
+                ops.append({"op": "drain"})
+                meta.append(None)
             scripts.append({"id": f"{lang}/{style}/{verb}/{b}", "ops": ops, "meta": meta, "cfg": c, "isolate_on_panic": True})
     results = C.run_mcv([{"id": s["id"], "ops": s["ops"], "isolate_on_panic": True} for s in scripts], wd, timeout_ms=60000)
     events, back = [], []
@@ -84,11 +102,16 @@ def run(tier):
         rr = results[si]["results"][oi]
         out = rr["v"] if rr["r"] == "ok" else str(rr["v"])
         missing = [v for v in lits if isinstance(out, str) and out.count(v) < lits.count(v)]
+        # hook event of speech.rs::is_repetitive: the text in front of a removed optional word is deleted with it (known finding);
+        # the finding explains this case only when every missing literal is in such a deleted text
+        nxt = results[si]["results"][oi + 1] if oi + 1 < len(results[si]["results"]) else {"r": "skipped"}
+        dropped = [e.get("in_front", "") for e in (nxt["v"] if nxt["r"] == "ok" else []) if isinstance(e, dict) and e.get("ev") == "repetitive_drop"]
+        by_rep = bool(missing) and rr["r"] == "ok" and all(any(v in d for d in dropped) for v in missing)
         shape = json.dumps(trees[ti], sort_keys=True)
         text = f"{reason}: {s['cfg'][0]}/{s['cfg'][1]}/{s['cfg'][2]}: literals {missing} of {xml[:300]} not in speech {out[:300]!r}"
         verdict.reject(f"{reason}|{s['cfg'][0]}|{s['cfg'][1]}|{s['cfg'][2]}|{S.fp(shape)}", text,
-                       {"script": s["ops"][:4] + [{"op": "set_mathml", "mathml": xml}, {"op": "speech"}]},
-                       text=json.dumps({"reason": reason, "lang": s["cfg"][0], "style": s["cfg"][1], "verbosity": s["cfg"][2], "tree": trees[ti], "speech": out[:300], "tail": out[-400:] if rr["r"] != "ok" else ""}, ensure_ascii=False))
+                       {"script": s["ops"][:5] + [{"op": "set_mathml", "mathml": xml}, {"op": "speech"}]},
+                       text=json.dumps({"reason": reason, "lang": s["cfg"][0], "style": s["cfg"][1], "verbosity": s["cfg"][2], "lost_by_is_repetitive": by_rep, "tree": trees[ti], "speech": out[:300], "tail": out[-400:] if rr["r"] != "ok" else ""}, ensure_ascii=False))
     for idx, reason in drifts[:30]:
         si, oi = back[idx - 1]
         verdict.add_drift(f"{reason}: {scripts[si]['cfg']} {scripts[si]['meta'][oi][2][:120]}")
@@ -96,7 +119,7 @@ def run(tier):
     C.write_evidence(PID, tier, "model_checking", {
         "states": gen["states"], "transitions": gen["transitions"],
         "traces_validated_against_impl": len(events),
-        "samples": [{"cfg": scripts[0]["cfg"], "mathml": scripts[0]["meta"][5][2], "speech": results[0]["results"][5]["v"]}],
+        "samples": [{"cfg": scripts[0]["cfg"], "mathml": scripts[0]["meta"][6][2], "speech": results[0]["results"][6]["v"]}],
         "evaluations": len(events), "distinct_nontrivial": len({(scripts[si]["cfg"], scripts[si]["meta"][oi][0]) for si, oi in back}),
         "rule": "trees = every context P(..Q(..)..) of 31 productions of the textbook grammar (ExprGen.tla, exhaustive to depth 2) plus simulated "
                 "depth-4 nestings, a distinct decimal literal at every operand position written with the language's decimal mark; configurations = "
